@@ -11,7 +11,8 @@ W_RULES = [
     dict(rule="R2", kind="re", dotall=True, pat=r"self\.current_block\.lock\(\)\.map_err\(\|_\| \{\s*std::io::Error::new\([^;]*?\)\s*\}\)\?", repl="&mut self.current_block", why="Mutex guard -> &mut field"),
     dict(rule="R2", kind="re", dotall=True, pat=r"self\.current_offset\.lock\(\)\.map_err\(\|_\| \{\s*std::io::Error::new\([^;]*?\)\s*\}\)\?", repl="&mut self.current_offset", why="Mutex guard -> &mut field"),
     dict(rule="R7", kind="re", pat=r"FileStateTracker::set_block_unlocked\(", repl="g.set_block_unlocked(", why="tracker call -> explicit globals"),
-    dict(rule="R6", kind="re", pat=r"(\w+)\.mmap\.flush\(\)", repl=r"sys_flush(sys, &\1.mmap)", why="SharedMmap::flush -> ghost-disk stub"),
+    dict(rule="R6", kind="re", pat=r"(\w+)\.mmap\.flush\(\)", repl=r"sys_flush(sys, &\1.mmap)", min=0, why="SharedMmap::flush -> ghost-disk stub"),
+    dict(rule="R6", kind="re", pat=r"(?<![\w.])(\w+)\.flush\(\)", repl=r"sys_flush(sys, &\1)", min=0, why="SharedMmap::flush on a local handle -> ghost-disk stub (whichever handle is flushed, the C10 clause says which file must be synced)"),
     dict(rule="R5", kind="re", pat=r"unsafe \{ self\.allocator\.alloc_block\((\w+)\) \}", repl=r"self.allocator.alloc_block(sys, Ghost(self.reader.chain_log@), Ghost(*block), \1)", why="allocator call (unsafe fn; its SAFETY condition is the writer holding both mutexes)"),
     dict(rule="R6", kind="re", pat=r"block\.write\(", repl="block.write(sys, ", why="Block::write gets the ghost disk"),
     dict(rule="R6", kind="re", pat=r"block\.zero_range\(", repl="block.zero_range(sys, ", min=0, why="Block::zero_range gets the ghost disk"),
